@@ -48,6 +48,7 @@ type report struct {
 	InjectFired   int                      `json:"kill_point_fired"`
 	KillPcs       map[string]int           `json:"kill_point_pcs_fired"`
 	Fatals        map[string]int           `json:"tool_fatal_exits"`
+	Restarts      int                      `json:"runs_with_restart"`
 	Rotations     int                      `json:"runs_with_rotation"`
 	LinkCollision int                      `json:"runs_with_link_eexist"`
 	OpenCollision int                      `json:"runs_with_open_eexist"`
@@ -129,6 +130,9 @@ func main() {
 		sc.Pre = rng.Intn(4)
 		if o.WorkDir && rng.Intn(2) == 0 {
 			sc.Foreign = 100 + rng.Intn(sc.SpanMs)
+		}
+		if stop != "drainterm" && rng.Intn(5) < 2 {
+			sc.Restart = []string{"term", "kill"}[rng.Intn(2)]
 		}
 		return sc
 	}
@@ -259,6 +263,9 @@ func main() {
 				R.KillPcs[r.Sc.Pc]++
 			}
 		}
+		if r.Sc.Restart != "" {
+			R.Restarts++
+		}
 		if r.Fatal != "" {
 			R.Fatals[r.Fatal]++
 		}
@@ -284,7 +291,7 @@ func main() {
 		if r.Fins > 0 && r.Creates+r.OpenOld > 0 {
 			o := r.Sc.Opts
 			distinct[fmt.Sprint(o.Gzip, o.WorkDir, o.SkipEmpty, o.RotSize > 0, o.RotIntMs > 0, o.DateFmt, o.SyncMs, o.MaxInFlight,
-				r.Sc.Stop, r.Sc.Pc, r.ExitCode, r.Creates > 1, r.LinkEEXIST > 0, r.OpenEEXIST > 0, r.OpenOld > 0, len(r.Sc.Hups))] = true
+				r.Sc.Stop, r.Sc.Restart, r.Sc.Pc, r.ExitCode, r.Creates > 1, r.LinkEEXIST > 0, r.OpenEEXIST > 0, r.OpenOld > 0, len(r.Sc.Hups))] = true
 		}
 		if w.N+len(r.Events)+1 <= *maxEvents && len(r.Events) > 0 {
 			w.Put(map[string]interface{}{"ev": "Reset"})
